@@ -89,7 +89,66 @@ def gen_constants():
             '(* generated from config.py: EQ_TOLERANCE as the exact value of the binary64 literal *)\n'
             'Definition gen_eq_tolerance : Qc := %s.\n' % cQ(Fraction(tol)))
 
-GENERATORS = {'PauliTable': gen_pauli_table, 'ClassAttrs': gen_class_attrs, 'Constants': gen_constants}
+# ---- translator for pure integer functions: parameters (Python ints -> Z, flags -> bool), statements
+#      `if c: ... [else: ...]` and `return e | None`, expressions + - * % and comparisons.  Python ints are unbounded
+#      and % is floored: Z.add / Z.sub / Z.mul / Z.modulo are the same functions (divisor non-zero).
+def zexpr(node, zp):
+    if isinstance(node, ast.Constant) and isinstance(node.value, int) and not isinstance(node.value, bool):
+        return '%d' % node.value if node.value >= 0 else '(%d)' % node.value
+    if isinstance(node, ast.Name):
+        if node.id in zp: return node.id
+        raise GenError('name %s is not an integer parameter' % node.id)
+    if isinstance(node, ast.BinOp):
+        ops = {ast.Add: '+', ast.Sub: '-', ast.Mult: '*'}
+        if type(node.op) in ops: return '(%s %s %s)' % (zexpr(node.left, zp), ops[type(node.op)], zexpr(node.right, zp))
+        if isinstance(node.op, ast.Mod): return '(Z.modulo %s %s)' % (zexpr(node.left, zp), zexpr(node.right, zp))
+    raise GenError('unsupported integer expression %s at line %s' % (type(node).__name__, getattr(node, 'lineno', '?')))
+
+def bexpr(node, zp, bp):
+    if isinstance(node, ast.Name) and node.id in bp: return node.id
+    if isinstance(node, ast.Compare) and len(node.ops) == 1:
+        a, b = zexpr(node.left, zp), zexpr(node.comparators[0], zp)
+        op = node.ops[0]
+        if isinstance(op, ast.Eq): return '(%s =? %s)' % (a, b)
+        if isinstance(op, ast.NotEq): return '(negb (%s =? %s))' % (a, b)
+        if isinstance(op, ast.Lt): return '(%s <? %s)' % (a, b)
+        if isinstance(op, ast.LtE): return '(%s <=? %s)' % (a, b)
+        if isinstance(op, ast.Gt): return '(%s <? %s)' % (b, a)
+        if isinstance(op, ast.GtE): return '(%s <=? %s)' % (b, a)
+    raise GenError('unsupported condition %s at line %s' % (type(node).__name__, getattr(node, 'lineno', '?')))
+
+def zblock(stmts, zp, bp):
+    """a statement list every path of which returns -> Gallina term of type option Z"""
+    stmts = [s for s in stmts if not (isinstance(s, ast.Expr) and isinstance(s.value, ast.Constant) and isinstance(s.value.value, str))]
+    if not stmts: raise GenError('a path falls off the end of the function')
+    s0 = stmts[0]
+    if isinstance(s0, ast.Return):
+        if len(stmts) != 1: raise GenError('statements after return')
+        if s0.value is None or (isinstance(s0.value, ast.Constant) and s0.value.value is None): return 'None'
+        return '(Some %s)' % zexpr(s0.value, zp)
+    if isinstance(s0, ast.If):
+        then = zblock(s0.body, zp, bp)
+        other = zblock(s0.orelse, zp, bp) if s0.orelse else zblock(stmts[1:], zp, bp)
+        if s0.orelse and len(stmts) != 1: raise GenError('statements after if/else whose branches both return')
+        return '(if %s then %s else %s)' % (bexpr(s0.test, zp, bp), then, other)
+    raise GenError('unsupported statement %s at line %s' % (type(s0).__name__, getattr(s0, 'lineno', '?')))
+
+def translate_int_function(fn, bool_params=()):
+    if fn.args.vararg or fn.args.kwarg or fn.args.kwonlyargs or fn.args.defaults: raise GenError('%s: unsupported signature' % fn.name)
+    names = [a.arg for a in fn.args.args]
+    zp = [a for a in names if a not in bool_params]; bp = [a for a in names if a in bool_params]
+    binders = ' '.join('(%s : %s)' % (a, 'bool' if a in bp else 'Z') for a in names)
+    return 'Definition gen%s %s : option Z :=\n  %s.\n' % (fn.name, binders, zblock(fn.body, zp, bp))
+
+def gen_hubbard_neighbors():
+    t = parse('src/openfermion/hamiltonians/hubbard.py')
+    out = ['From Coq Require Import ZArith Bool.\nLocal Open Scope Z_scope.',
+           '(* generated from hamiltonians/hubbard.py: _right_neighbor, _bottom_neighbor (Python ints as Z, periodic as bool) *)']
+    for name in ('_right_neighbor', '_bottom_neighbor'):
+        out.append(translate_int_function(func_def(t, name), bool_params=('periodic',)))
+    return '\n'.join(out)
+
+GENERATORS = {'PauliTable': gen_pauli_table, 'ClassAttrs': gen_class_attrs, 'Constants': gen_constants, 'HubbardNeighbors': gen_hubbard_neighbors}
 
 def regenerate():
     """rewrite Gen/*.v from the current source; returns {name: error or None}"""
